@@ -30,7 +30,8 @@ RULE = ("A case is one sampler configuration (class + options, written in one of
         "determinant x complex (x 4 norm ranges) are enumerated, constructor acceptance must equal the existence "
         "table written in the class doc-string, and every draw of an accepted combination must have the symmetry, "
         "trace, determinant, norm, shape and realness requested. Non-trivial = the configuration differs from the "
-        "class default in at least one option and the K draws are not all equal; distinct by configuration+seed.")
+        "class default in at least one option and the K draws are not all equal; distinct by configuration+seed."
+        " In every part rival samplers of the same class with far-away options are constructed and sampled after the sampler under test is built and before it is drawn from.")
 ASSUMPTIONS = [
     "bounds, centers, amplitudes and norms are finite numbers of magnitude <= 1e6 (ComplexSector modulus and array "
     "norm ranges non-negative), as the docs describe; no NaN/inf options",
